@@ -89,8 +89,12 @@ func (w *Wrapper) Routes(router core.EchoRouter) {
 }
 
 func (r Wrapper) GetTenantWebDID(_ context.Context, request GetTenantWebDIDRequestObject) (GetTenantWebDIDResponseObject, error) {
-	ownDID := r.requestedWebDID(request.Id)
-	document, err := r.VDR.ResolveManaged(ownDID)
+	ownDID, err := r.requestedWebDID(request.Id)
+	if err != nil {
+		// the requested ID can't be part of a did:web DID, so no such DID exists
+		return GetTenantWebDID404Response{}, nil
+	}
+	document, err := r.VDR.ResolveManaged(*ownDID)
 	if err != nil {
 		if resolver.IsFunctionalResolveError(err) {
 			return GetTenantWebDID404Response{}, nil
@@ -102,8 +106,11 @@ func (r Wrapper) GetTenantWebDID(_ context.Context, request GetTenantWebDIDReque
 }
 
 func (r Wrapper) GetRootWebDID(ctx context.Context, _ GetRootWebDIDRequestObject) (GetRootWebDIDResponseObject, error) {
-	ownDID := r.requestedWebDID("")
-	document, err := r.VDR.ResolveManaged(ownDID)
+	ownDID, err := r.requestedWebDID("")
+	if err != nil {
+		return GetRootWebDID404Response{}, nil
+	}
+	document, err := r.VDR.ResolveManaged(*ownDID)
 	if err != nil {
 		if resolver.IsFunctionalResolveError(err) {
 			return GetRootWebDID404Response{}, nil
@@ -279,11 +286,10 @@ func (w *Wrapper) AddVerificationMethod(ctx context.Context, request AddVerifica
 // - did:web:example.com
 // - did:web:example:iam:1234
 // When userID is given, it's appended to the DID as `:iam:<userID>`. If it's absent, the DID is returned as is.
-func (r Wrapper) requestedWebDID(userID string) did.DID {
+func (r Wrapper) requestedWebDID(userID string) (*did.DID, error) {
 	identityURL := r.VDR.PublicURL()
 	if userID != "" {
 		identityURL = identityURL.JoinPath("iam", userID)
 	}
-	result, _ := didweb.URLToDID(*identityURL)
-	return *result
+	return didweb.URLToDID(*identityURL)
 }
